@@ -63,7 +63,7 @@ fn decorate(positions: &[f32], pattern: usize) -> Vec<Kf> {
 }
 
 pub fn run(run: Run) -> ! {
-    let nmax = if run.is_thorough() { 6 } else { 5 };
+    let nmax = if run.is_thorough() { 8 } else { 6 };
     let npat = if run.is_thorough() { 12 } else { 6 };
     let thetas = theta();
     let grids: Vec<Vec<f32>> = thetas.iter().map(|th| tau(th, 32)).collect();
